@@ -210,7 +210,9 @@ class C20(Prop):
                    "what a server does with `c//compose`, redirects, proxies and TLS are the world's business; `_urlopen` itself (ssl context, urllib) is exercised "
                    "only against the loop-back server / a refused port, not modelled", "'undecodable' = an exception of a class named in the except clause of _load_metadata (read from the source: "
                    "ValueError, KeyError, TypeError, AttributeError) during load; other classes (OSError) propagate"]
-    partial = {}
+    partial = {"C20_url_propagates_partial": "states what the code does with fetch failures that are not URLError (they leave the constructor / accessor unchanged, "
+                                              "never as RuntimeError) and with a URLError of the load's own fetch; whether the property wants RuntimeError there is a reading "
+                                              "question (a timeout is not 'a missing file'); URLs that urllib rejects outright: known finding F-c20url-1"}
 
     def gen(self):
         return json.load(open(os.path.join(ROOT, "lean", "generated.json")))
